@@ -29,12 +29,16 @@ def oracle_c01(c, a, b):
 
 
 def oracle_c02(c, a, b):
+    """both directions against the independent executable statement of the policy (refdec.wellformed)"""
+    w = c.split(" ")
+    if w[0] != "parse":
+        return None
     if bad_outcome(a):
         return "parse did not return: %s" % outcome(a)
-    va, vb = outcome(a), outcome(b)
-    if vb in ("ok", "err") and va != vb:
-        if va == "ok":
-            return "accepted a packet that is not well-formed under the policy (model verdict: %s)" % b
+    ok, why = refdec.is_wellformed(b"" if w[1] == "-" else bytes.fromhex(w[1]))
+    if outcome(a) == "ok" and not ok:
+        return "accepted a packet that is not well-formed under the policy: %s" % why
+    if outcome(a) == "err" and ok:
         return "rejected a well-formed packet (%s)" % a
     return None
 
@@ -399,6 +403,97 @@ def oracle_c14(c, a, b):
     return None
 
 
+def oracle_c15(c, a, b):
+    w = c.split(" ")
+    if w[0] not in ("cabi", "cabic"):
+        return None
+    if outcome(a) in ("abort", "hang", "panic"):
+        return "a table call crashed the process instead of returning -1 (%s)" % outcome(a)
+    if a.startswith("noparse"):
+        return None
+    if a.startswith("cdriver-does-not-compile"):
+        return "a C hook using the table as declared in c_hook.h does not compile / link against the library: %s" % a[:300]
+    for bad in ("CANARY-BROKEN", "name-not-terminated", "state-panic", "err=?", "err=null"):
+        if bad in a:
+            return "table call misbehaved: %s" % bad
+    halves = a.split(" @@ ")
+    if w[0] == "cabic":
+        if len(halves) != 2 or halves[0] != halves[1]:
+            return "a hook compiled against c_hook.h observes something else than a caller using the Rust table: " + first_diff(halves[0], halves[-1])
+    # the final packet state must satisfy C08 (unless a by-design finding applies)
+    fin = halves[0].split(" ; ")[-1]
+    if fin.startswith("b="):
+        d = dict(tok.split("=", 1) for tok in fin.split(" ") if "=" in tok)
+        st = {"bytes": _hex(d["b"]), "view": dict(kv.split("=", 1) for kv in d["v"].split(",")), "mc": "1", "c": "-", "k": "-"}
+        reason, waivers = oracle_script.check_c08_state(st, None)
+        if reason and not waivers and " addq " not in c:
+            return "after the hook script: " + reason
+    # copy-out discipline
+    for piece in halves[0].split(" ; "):
+        m = re.match(r"ret=0 len=(\d+) bytes=(\S+)", piece)
+        if m and int(m.group(1)) * 2 != len(m.group(2)) and not (m.group(1) == "0"):
+            return "raw_packet length does not match the bytes copied"
+    return None
+
+
+def oracle_c16(c, a, b):
+    w = c.split(" ")
+    if w[0] != "errslots":
+        return None
+    if outcome(a) in ("abort", "hang", "panic"):
+        return "error-slot script %s" % outcome(a)
+    last = {}
+    got = a.split(" ")
+    steps = w[2:]
+    if len(got) != len(steps):
+        return "script produced %d results for %d steps" % (len(got), len(steps))
+    for st, g in zip(steps, got):
+        m = re.match(r"(\d+)(f(\d+)|r)$", st)
+        t = int(m.group(1))
+        if m.group(2) == "r":
+            want = "t%d=%s" % (t, last.get(t, "none"))
+            if g != want:
+                return "thread %d read description %s, its own most recent failure is %s" % (t, g, want)
+        else:
+            last[t] = m.group(3)
+            if g != "t%df=-1" % t:
+                return "a failing call returned %s instead of -1" % g
+    return None
+
+
+def oracle_c17(c, a, b):
+    if not c.startswith("session "):
+        return None
+    if outcome(a) in ("abort", "hang", "panic"):
+        return "session %s" % outcome(a)
+    m = re.match(r"seq=(\S+) conc=(\S+) \|\|", a)
+    if not m:
+        return "unreadable session output"
+    if m.group(1) != "ok":
+        return "a call returned something else after earlier calls on the same thread (%s)" % m.group(1)
+    if m.group(2) != "ok":
+        return "a call returned something else while other threads were working (%s)" % m.group(2)
+    return None
+
+
+STEP_SLOPE, STEP_CONST = 80, 1200
+
+
+def oracle_c18(c, a, b):
+    w = c.split(" ")
+    if w[0] != "steps":
+        return None
+    if outcome(a) in ("abort", "hang", "panic"):
+        return "validation %s" % outcome(a)
+    m = re.search(r"steps=(\d+)", a)
+    if not m:
+        return "no step count"
+    n = len(_hex(w[1]))
+    if int(m.group(1)) > STEP_SLOPE * n + STEP_CONST:
+        return "%s steps on a %d-byte packet exceed %d * len + %d" % (m.group(1), n, STEP_SLOPE, STEP_CONST)
+    return None
+
+
 def nontrivial_accepted(c, a):
     return not a.startswith("noparse")
 
@@ -529,6 +624,34 @@ PROPS = {
         "rule": "all strings over {a,B,0,-,_,.,0x80} up to length 4 (quick) / 6 (thorough), each with and without a default zone, plus label lengths 60..65 and text lengths 245..258, forbidden bytes; each accepted name is also given to a record and read back",
         "level": "other", "explanation": "", "assumptions": [],
     },
+    "C15": {
+        "module": "DnsModel.Theorems.C15", "theorems": ["Dns.C15.layout", "Dns.C15.classified"],
+        "families": [{"name": "cabi", "quick": 1200, "thorough": 40000}, {"name": "cabic", "quick": 1200, "thorough": 40000}],
+        "oracle": oracle_c15, "nontrivial": lambda c, a: " act=" in a or "ret=" in a, "shrink": False,
+        "rule": "hook scripts over accepted packets: address accessors on every A/AAAA record, 1-5 further table calls (getters/setters, section callbacks acting on the k-th record: name/type/class/ttl/set ttl/set raw name/set name with zone/delete/delete twice, add to three sections, raw-packet copy-out with capacities 0/len-1/len/8192, question, rename, name conversion) under the table's preconditions; each script is run through the Rust table and through a C driver compiled against c_hook.h with -Wall -Werror, canaries around all caller buffers",
+        "level": "other", "explanation": "", "assumptions": ["memory safety of the unsafe blocks themselves is modelled (bounds theorems on the model) and observed (canaries), not verified"],
+    },
+    "C16": {
+        "module": "DnsModel.Theorems.C16", "theorems": [],
+        "families": [{"name": "errslots-exhaustive", "quick": 0, "thorough": 0, "fixed": True}, {"name": "errslots", "quick": 300, "thorough": 5000}],
+        "oracle": oracle_c16, "nontrivial": lambda c, a: "f" in c, "shrink": False,
+        "rule": "all 20 interleavings of 2 threads x 3 steps x 36 assignments of step kinds (exhaustive), plus sampled 3- and 4-thread schedules; real threads stepped in the scripted global order",
+        "level": "other", "explanation": "", "assumptions": ["thread_local! gives each thread its own cell (what the schedules probe)"],
+    },
+    "C17": {
+        "module": "DnsModel.Theorems.C17", "theorems": [],
+        "families": [{"name": "session", "quick": 400, "thorough": 20000}],
+        "oracle": oracle_c17, "nontrivial": lambda c, a: " ok " in a, "shrink": False,
+        "rule": "sessions of 2-7 calls (parse, uncompress, compress, rename, synth; one call repeated): each alone on a fresh thread, all back to back twice on one thread, all concurrently on 4 threads in rotated orders; outputs compared byte for byte with each other and with the model",
+        "level": "other", "explanation": "", "assumptions": [],
+    },
+    "C18": {
+        "module": "DnsModel.Theorems.C18", "theorems": [],
+        "families": [{"name": "steps-adversarial", "quick": 0, "thorough": 0, "fixed": True}, {"name": "steps", "quick": 3000, "thorough": 300000}],
+        "oracle": oracle_c18, "nontrivial": nontrivial_parse_steps if False else (lambda c, a: True),
+        "rule": "C01's packet stream plus families built to maximise work (chains 1..17 deep x tail labels x up to 400 records; 1000 SOA records naming a 255-byte name three times through pointers; 16000 options; lying counts); the hook's counter must equal the model's count and stay under the bound",
+        "level": "other", "explanation": "", "assumptions": [],
+    },
     "C12": {
         "module": "DnsModel.Theorems.C12",
         "theorems": [],
@@ -540,14 +663,14 @@ PROPS = {
         "nontrivial": lambda c, a: True,
         "rule": "flag words x setter arguments: quick = 1024 words incl. all single-bit words and mask constants x (6 fixed + 11 single-bit + 1 random) set_flags arguments, "
                 "8 opcode / 8 rcode arguments, both response values, a random tid; thorough = all 65536 words x (6 fixed + all 32 single-bit + 8 random) arguments; every case is distinct",
-        "level": "proof",
+        "level": "other",
         "shrink": False,
         "explanation": "",
         "assumptions": [],
     },
     "C02": {
         "module": "DnsModel.Theorems.C02",
-        "theorems": [],
+        "theorems": ["Dns.C02.name_ok_iff_valid"],
         "families": [
             {"name": "boundary-parse", "quick": 0, "thorough": 0, "fixed": True},
             {"name": "parse", "quick": 8000, "thorough": 400000},
@@ -555,8 +678,57 @@ PROPS = {
         "oracle": oracle_c02,
         "nontrivial": nontrivial_parse,
         "rule": "as C01's parse stream; verdicts compared in both directions; non-trivial = distinct packets past the header checks",
-        "level": "proof",
+        "level": "other",
         "explanation": "",
         "assumptions": [],
     },
 }
+
+
+CORR = "model tied to the code on every run by differential execution on generated cases (I = real dnssector with hooks, M = compiled Lean model), plus an independent Python oracle that judges I's observed behaviour against the property"
+NOTE = "Trusted: Lean kernel; axioms propext/Classical.choice/Quot.sound only (audited); hand-written model checked against the code by differential execution, not proved; Python reference decoder/recogniser used only to search for failing inputs; safe-Rust memory safety; usize as Nat."
+
+PENDING = " The full-strength Lean theorem of DESIGN.md §6 for this property is not (yet) proved: the claim rests on the executable model + correspondence + oracle, and on the listed partial theorems; hence category 'other'."
+
+MANIFEST_TEXT = {
+    "C01": {"text": "Lean theorems: the model of parse(), of both name checkers and of every script of public cursor calls returns Ok or Err for all byte strings / offsets / increments (no panic, no fuel exhaustion), and a successful name check stays inside the buffer. " + CORR,
+            "note": NOTE + " Termination of the real loops is inferred from the model's termination proof plus outcome and step-count agreement.",
+            "technique": "Lean 4 proof (induction on fuel, cursor invariant) + model/implementation correspondence"},
+    "C02": {"text": "Executable model of the validator proved total; name-walker proved equivalent to the declarative name relation (checkCompressedName p off = ok e <-> exists labels, ValidName p off labels e). Verdicts of the real parser are compared in both directions with the model and with an independent executable statement of the policy (Python recogniser) on structured, single-point-damaged, boundary and arbitrary packets." + PENDING,
+            "note": NOTE, "technique": "Lean 4 proof of the name-walker iff + correspondence + independent recogniser"},
+    "C03": {"text": "Model of the four iterators and all accessors; on every generated accepted packet the real walks/accessors, the model's and the reference decoder's RFC 1035 reading agree (OPT absent/first/middle/last, chained pointers, pointers into rdata)." + PENDING,
+            "note": NOTE, "technique": "model/implementation correspondence + reference decoder oracle"},
+    "C04": {"text": "Model of every header/question/EDNS getter (with the question cache); real getters compared with the model and with values decoded independently from the bytes by div/mod." + PENDING,
+            "note": NOTE, "technique": "model/implementation correspondence + reference decoder oracle"},
+    "C05": {"text": "Model of uncompress_with_previous_offset; on every generated accepted packet and record boundary the real output equals the model's, is the canonical pointer-free encoding of the decoded message, is accepted, is a fixed point, and carries the boundary across." + PENDING,
+            "note": NOTE, "technique": "model/implementation correspondence + reference decoder oracle"},
+    "C06": {"text": "Model of compress() with the 32-entry suffix dictionary (depth-tracked); real output byte-identical to the model's on random messages and on the dictionary families (31..70 suffixes, 126..255-byte suffixes, nesting to 40, offsets beyond 16383, mixed case, OPT anywhere); oracle checks acceptance, no growth, message equality up to case, question bytes. Emission lemmas (NameAt.mono/append/emit_ptr) are proved." + PENDING,
+            "note": NOTE, "technique": "model/implementation correspondence + reference decoder oracle + proved emission lemmas"},
+    "C07": {"text": "Model of Renamer (replace_raw, per-type rdlen, OPT in place); real output byte-identical to the model's; oracle compares the decoded result with the specified renaming of the decoded input (matches at every depth, near-misses, case, growth past 255)." + PENDING,
+            "note": NOTE, "technique": "model/implementation correspondence + reference decoder oracle"},
+    "C08": {"text": "State-machine model (packet object + one cursor) of every mutator; after every operation of every script the real object's bytes, public fields, cache and cursor equal the model's, and the oracle re-derives the view from the bytes alone. By-design findings KF1-KF5 are waived only when KNOWN_FINDINGS lists them." + PENDING,
+            "note": NOTE, "technique": "step-wise model/implementation correspondence on operation scripts + reference decoder oracle"},
+    "C09": {"text": "Same scripts as C08; after every operation the decoded message must be the message before with exactly the specified change (abstract list operation on the decoded message)." + PENDING,
+            "note": NOTE, "technique": "step-wise correspondence + abstract-message oracle"},
+    "C10": {"text": "Scripts biased to failing arguments and packets around/beyond 8192 and 65535 bytes: every failed call must leave the decoded message unchanged and the object consistent; insertion never exceeds 8192 bytes." + PENDING,
+            "note": NOTE, "technique": "step-wise correspondence + abstract-message oracle"},
+    "C11": {"text": "Exhaustive deletion walks (every subset of sections of size 0..5, four sections, two layouts, OPT absent/first/last): termination, exact removal, void-record on second delete, no deleted record yielded again, survivors in order, matching count, emptied section absent." + PENDING,
+            "note": NOTE, "technique": "exhaustive small-scope correspondence + walk oracle"},
+    "C12": {"text": "Model of the five header setters and six getters; real behaviour compared with the model and with the frame condition computed from RFC 1035 field positions, exhaustively over all 65536 flag words in the thorough tier." + PENDING,
+            "note": NOTE, "technique": "exhaustive correspondence over flag words + div/mod oracle"},
+    "C13": {"text": "Deterministic recogniser mirroring the chomp combinator tree + builders; real synthesis compared with the model and with an independent Python synthesiser of the RFC 1035 wire form on grammar-derived, damaged and arbitrary texts, and the result inserted into valid packets." + PENDING,
+            "note": NOTE + " chomp1 combinator semantics read from the vendored source; Ipv6Addr::from_str modelled.", "technique": "model/implementation correspondence + reference synthesiser oracle"},
+    "C14": {"text": "Model of copy_raw_name_from_str; exhaustive over a 7-symbol alphabet up to length 4 (quick) / 6 (thorough) with and without zone, boundary lengths; every accepted name is given to a record and read back." + PENDING,
+            "note": NOTE, "technique": "exhaustive small-alphabet correspondence + label oracle"},
+    "C15": {"text": "Proved on data regenerated from c_abi.rs and c_hook.h on every run: the table's order, count (30) and ABI-class signatures agree with the header and the initialiser follows declaration order. Facade behaviour: hook scripts run through the Rust table and through a C driver compiled against the shipped header (-Wall -Werror), with canaries around caller buffers; transcripts must equal each other and the model's (which is the native semantics).",
+            "note": NOTE + " Memory safety of the unsafe blocks is observed (canaries), not verified.", "technique": "Lean decide on translated tables + three-way correspondence (C driver / Rust table / model)"},
+    "C16": {"text": "Per-thread slot model with the theorem that a read returns the thread's own last failure for every history; real threads stepped through all 2x3 interleavings x step kinds and sampled 3-4 thread schedules.",
+            "note": NOTE + " thread_local! semantics assumed, probed by the schedules.", "technique": "Lean proof by induction on histories + exhaustive schedule correspondence"},
+    "C17": {"text": "The model's functions are pure by construction; the real calls are executed alone, back to back and concurrently, and every output is compared byte for byte with the others and with the model's.",
+            "note": NOTE, "technique": "history-based correspondence (alone / sequential / concurrent)"},
+    "C18": {"text": "Instrumented twin of the validator model counting one step per name-walk iteration, record and option; the real step counter (cfg-guarded hook) must equal the model's count on every case and stay below 80*len+1200, including on adversarial families." + PENDING,
+            "note": NOTE, "technique": "step-count correspondence via the verification hook + bound oracle"},
+}
+for _p, _spec in PROPS.items():
+    if not _spec.get("explanation"):
+        _spec["explanation"] = MANIFEST_TEXT[_p]["text"]
